@@ -92,12 +92,50 @@ def arr(l):
     return np.array(fl(l), dtype=float)
 
 
+# ---- argument types -----------------------------------------------------------
+# The library is called with numbers and flags of varying Python / numpy types: the same value as a
+# float, a numpy.float64, a Python int (when it is integral) or a 0-d array; a flag as bool,
+# numpy.bool_ or 0/1.  The choice is a deterministic function of a call counter, so a replay
+# reproduces it.  (Seeded changes C02-7 / C12-8: `if RI is True`, C16-7: in-place `max_tau *= 2`,
+# C18-8: integer dtype kept by SpikeTrain.)
+_TICK = [0]
+TYPES = True
+
+
+def _tick():
+    _TICK[0] += 1
+    return _TICK[0]
+
+
 def num(x):
     """a scalar argument (t_start, t_end, MRTS, max_tau, interval end, threshold)"""
     if EXACT:
         import exact
         return exact.Ex(x)
-    return float(x)
+    v = float(x)
+    if not TYPES:
+        return v
+    k = _tick() % 11
+    if k == 3:
+        return np.float64(v)
+    if k == 7 and v == int(v) and abs(v) < 2 ** 31:
+        return int(v)
+    if k == 9:
+        return np.array(v)
+    return v
+
+
+def flag(b):
+    """a boolean keyword (RI, normalize)"""
+    b = bool(b)
+    if EXACT or not TYPES:
+        return b
+    k = _tick() % 5
+    if k == 1:
+        return np.bool_(b)
+    if k == 3:
+        return int(b)
+    return b
 
 
 def lst(l):
@@ -133,14 +171,49 @@ class Impl(object):
     # -- helpers
     def train(self, t):
         s, ts, te = t
+        if not EXACT and TYPES:
+            k = _tick() % 6
+            sf = fl(s)
+            if k == 2 and sf and all(v == int(v) for v in sf):
+                # integral times given as Python ints / an integer array, and not declared sorted
+                return self.ps.SpikeTrain(np.array([int(v) for v in sf]) if len(sf) % 2 else [int(v) for v in sf],
+                                          [edge(ts), edge(te)], is_sorted=(sf != sorted(sf) or _tick() % 2 == 0))
+            if k == 4 and sf == sorted(sf):
+                return self.ps.SpikeTrain(arr(s), [edge(ts), edge(te)], is_sorted=False)
         return self.ps.SpikeTrain(arr(s), [edge(ts), edge(te)])
 
     def trains(self, l):
         return [self.train(t) for t in l]
 
+    # -- call forms: every public measure accepts two trains, a list, or several positional trains, and a pair can be
+    # picked out of a longer list with `indices`; all forms must give the same result (property C14), so the adapter
+    # is free to use any of them - deterministically varied, like the argument types
+    def two(self, f, a, b, **kw):
+        A, B = self.train(a), self.train(b)
+        k = _tick() % 7 if (TYPES and not EXACT) else 0
+        if k == 2:
+            return f([A, B], **kw)
+        if k == 4:
+            return f([B, A, B], indices=[1, 0], **kw)
+        if k == 6:
+            return f([A, B, B], indices=np.array([0, 2]), **kw)
+        return f(A, B, **kw)
+
+    def many(self, f, l, ix, **kw):
+        L = self.trains(l)
+        if ix is None and TYPES and not EXACT and _tick() % 4 == 1:
+            return f(*L, **kw)                      # separate positional arguments (two of them: the two-train form)
+        if ix is not None and TYPES and not EXACT and _tick() % 4 == 2:
+            return f(L, indices=np.array(self.idx(ix)), **kw)
+        return f(L, indices=self.idx(ix), **kw)
+
     @staticmethod
     def iv(iv):
-        return None if iv is None else (num(iv[0]), num(iv[1]))
+        if iv is None:
+            return None
+        if not EXACT and TYPES and _tick() % 3 == 0:
+            return [num(iv[0]), num(iv[1])]          # a list instead of a tuple
+        return (num(iv[0]), num(iv[1]))
 
     @staticmethod
     def ivspec(iv):
@@ -162,7 +235,7 @@ class Impl(object):
         if m is not None and m != 0:
             kw["MRTS"] = num(m)       # MRTS = 0 is the default: leave the keyword out (explicit 0 is C15's business)
         if ri is not None:
-            kw["RI"] = bool(ri)
+            kw["RI"] = flag(ri)
         return kw
 
     def call(self, rid, args):
@@ -175,13 +248,13 @@ class Impl(object):
 
     def r2(self, s1, s2, ts, te, m, ri):
         f = self.mods["cython_profiles"].spike_profile_cython if self.cy else self.pb.spike_distance_python
-        return f(arr(s1), arr(s2), num(ts), num(te), num(m), bool(ri))
+        return f(arr(s1), arr(s2), num(ts), num(te), num(m), flag(ri))
 
     def r3(self, x, l, a0, a1):
         return self.pb.get_min_dist(num(x), arr(l), 0, num(a0), num(a1))
 
     def r4(self, i1, i2, s1, s2, m, ri):
-        return self.pb.dist_at_t(num(i1), num(i2), num(s1), num(s2), num(m), bool(ri))
+        return self.pb.dist_at_t(num(i1), num(i2), num(s1), num(s2), num(m), flag(ri))
 
     def r5(self, c1, c2, lim, m):
         # rebuild arrays and indices from the two contexts
@@ -226,7 +299,7 @@ class Impl(object):
 
     def r11(self, s1, s2, ts, te, m, ri):
         return self.mods["cython_distances"].spike_distance_cython(arr(s1), arr(s2), num(ts), num(te),
-                                                                   num(m), bool(ri))
+                                                                   num(m), flag(ri))
 
     def r12(self, s1, s2, ts, te, mt, m):
         return self.mods["cython_distances"].coincidence_value_cython(arr(s1), arr(s2), num(ts), num(te),
@@ -294,7 +367,7 @@ class Impl(object):
         return self.ps.DiscreteFunc(arr(x), arr(y), arr(mp)).integral(self.ivspec(iv))
 
     def r34(self, x, y, mp, iv, nrm):
-        return self.ps.DiscreteFunc(arr(x), arr(y), arr(mp)).avrg(self.ivspec(iv), normalize=bool(nrm))
+        return self.ps.DiscreteFunc(arr(x), arr(y), arr(mp)).avrg(self.ivspec(iv), normalize=flag(nrm))
 
     def r35(self, x, y, mp, k):
         return self.ps.DiscreteFunc(arr(x), arr(y), arr(mp)).get_plottable_data(int(k))
@@ -329,54 +402,46 @@ class Impl(object):
 
     # -- L3 entry points
     def r50(self, rc, m, a, b):
-        return self.ps.isi_profile(self.train(a), self.train(b), **self.kw(rc, m))
+        return self.two(self.ps.isi_profile, a, b, **self.kw(rc, m))
 
     def r51(self, rc, m, ri, a, b):
-        return self.ps.spike_profile(self.train(a), self.train(b), **self.kw(rc, m, ri))
+        return self.two(self.ps.spike_profile, a, b, **self.kw(rc, m, ri))
 
     def r52(self, rc, mt, m, a, b):
-        return self.ps.spike_sync_profile(self.train(a), self.train(b), max_tau=num(mt), **self.kw(rc, m))
+        return self.two(self.ps.spike_sync_profile, a, b, max_tau=num(mt), **self.kw(rc, m))
 
     def r53(self, rc, mt, m, a, b):
-        return self.ps.spike_train_order_profile(self.train(a), self.train(b), max_tau=num(mt),
-                                                 **self.kw(rc, m))
+        return self.two(self.ps.spike_train_order_profile, a, b, max_tau=num(mt), **self.kw(rc, m))
 
     def r54(self, rc, m, iv, a, b):
-        return self.ps.isi_distance(self.train(a), self.train(b), interval=self.iv(iv), **self.kw(rc, m))
+        return self.two(self.ps.isi_distance, a, b, interval=self.iv(iv), **self.kw(rc, m))
 
     def r55(self, rc, m, ri, iv, a, b):
-        return self._quiet(lambda: self.ps.spike_distance(self.train(a), self.train(b), interval=self.iv(iv),
-                                                          **self.kw(rc, m, ri)))
+        return self._quiet(lambda: self.two(self.ps.spike_distance, a, b, interval=self.iv(iv), **self.kw(rc, m, ri)))
 
     def r56(self, rc, mt, m, iv, a, b):
-        return self.ps.spike_sync(self.train(a), self.train(b), interval=self.iv(iv), max_tau=num(mt),
-                                  **self.kw(rc, m))
+        return self.two(self.ps.spike_sync, a, b, interval=self.iv(iv), max_tau=num(mt), **self.kw(rc, m))
 
     def r60(self, rc, m, l, ix):
-        return self.ps.isi_profile(self.trains(l), indices=self.idx(ix), **self.kw(rc, m))
+        return self.many(self.ps.isi_profile, l, ix, **self.kw(rc, m))
 
     def r61(self, rc, m, ri, l, ix):
-        return self.ps.spike_profile(self.trains(l), indices=self.idx(ix), **self.kw(rc, m, ri))
+        return self.many(self.ps.spike_profile, l, ix, **self.kw(rc, m, ri))
 
     def r62(self, rc, mt, m, l, ix):
-        return self.ps.spike_sync_profile(self.trains(l), indices=self.idx(ix), max_tau=num(mt),
-                                          **self.kw(rc, m))
+        return self.many(self.ps.spike_sync_profile, l, ix, max_tau=num(mt), **self.kw(rc, m))
 
     def r63(self, rc, mt, m, l, ix):
-        return self.ps.spike_train_order_profile(self.trains(l), indices=self.idx(ix), max_tau=num(mt),
-                                                 **self.kw(rc, m))
+        return self.many(self.ps.spike_train_order_profile, l, ix, max_tau=num(mt), **self.kw(rc, m))
 
     def r64(self, rc, m, iv, l, ix):
-        return self.ps.isi_distance(self.trains(l), indices=self.idx(ix), interval=self.iv(iv),
-                                    **self.kw(rc, m))
+        return self.many(self.ps.isi_distance, l, ix, interval=self.iv(iv), **self.kw(rc, m))
 
     def r65(self, rc, m, ri, iv, l, ix):
-        return self._quiet(lambda: self.ps.spike_distance(self.trains(l), indices=self.idx(ix),
-                                                          interval=self.iv(iv), **self.kw(rc, m, ri)))
+        return self._quiet(lambda: self.many(self.ps.spike_distance, l, ix, interval=self.iv(iv), **self.kw(rc, m, ri)))
 
     def r66(self, rc, mt, m, iv, l, ix):
-        return self.ps.spike_sync(self.trains(l), indices=self.idx(ix), interval=self.iv(iv),
-                                  max_tau=num(mt), **self.kw(rc, m))
+        return self.many(self.ps.spike_sync, l, ix, interval=self.iv(iv), max_tau=num(mt), **self.kw(rc, m))
 
     def r67(self, rc, m, iv, l, ix):
         return self.ps.isi_distance_matrix(self.trains(l), indices=self.idx(ix), interval=self.iv(iv),
@@ -396,23 +461,21 @@ class Impl(object):
         return [[k, r] for k, r in zip(kept, removed)]
 
     def r71(self, rc, nrm, mt, m, a, b):
-        return self.ps.spike_train_order(self.train(a), self.train(b), normalize=bool(nrm),
-                                         max_tau=num(mt), **self.kw(rc, m))
+        return self.two(self.ps.spike_train_order, a, b, normalize=flag(nrm), max_tau=num(mt), **self.kw(rc, m))
 
     def r72(self, rc, nrm, mt, m, l, ix):
-        return self.ps.spike_train_order(self.trains(l), indices=self.idx(ix), normalize=bool(nrm),
-                                         max_tau=num(mt), **self.kw(rc, m))
+        return self.many(self.ps.spike_train_order, l, ix, normalize=flag(nrm), max_tau=num(mt), **self.kw(rc, m))
 
     def r73(self, rc, mt, m, l, ix):
         return self.ps.spike_directionality_values(self.trains(l), indices=self.idx(ix),
                                                    max_tau=num(mt), **self.kw(rc, m))
 
     def r74(self, rc, nrm, mt, m, a, b):
-        return self.ps.spike_directionality(self.train(a), self.train(b), normalize=bool(nrm),
+        return self.ps.spike_directionality(self.train(a), self.train(b), normalize=flag(nrm),
                                             max_tau=num(mt), **self.kw(rc, m))
 
     def r75(self, rc, nrm, mt, m, l, ix):
-        return self.ps.spike_directionality_matrix(self.trains(l), normalize=bool(nrm),
+        return self.ps.spike_directionality_matrix(self.trains(l), normalize=flag(nrm),
                                                    indices=self.idx(ix), max_tau=num(mt),
                                                    **self.kw(rc, m))
 
